@@ -201,7 +201,11 @@ Proof. intros H span. unfold parse_number, num_val, num_readable in *. destruct 
 Definition abinop (a : arith) : binop :=
   match a with APlus => Add | ADash => Sub | AStar => Mul | ASlash => Div | ACaret | AStarStar => Pow end.
 Fixpoint tbin (r : tail) (m : nat) : binop :=
-  match r with TNil => Add | TCons _ a _ _ _ r' => match m with O => abinop a | S m' => tbin r' m' end end.
+  match r with
+  | TNil => Add
+  | TCons _ a _ _ _ r' => match m with O => abinop a | S m' => tbin r' m' end
+  | TTo _ _ _ _ r' => match m with O => Add | S m' => tbin r' m' end
+  end.
 
 Fixpoint sem_operand (x : operand) : Arith.expr :=
   match x with Num t => Lit (num_val t) | Pct t _ _ => Lit (num_val t / (100 # 1))%Q | Paren _ _ _ e _ => sem_expr e end
@@ -210,17 +214,22 @@ with sem_expr (e : expr) : Arith.expr :=
   | Chain x r =>
       texpr (fun n => match n with O => sem_operand x | S m => tsem r m end)
             (fun i => match i with O => Add | S m => tbin r m end)
-            (canon levels3 (Leaf 0, mkin 0 (prios r)))
+            (canon levels4 (Leaf 0, mkin 0 (prios r)))
   end
 with tsem (r : tail) (m : nat) {struct r} : Arith.expr :=
-  match r with TNil => Lit 0%Q | TCons _ _ _ _ x r' => match m with O => sem_operand x | S m' => tsem r' m' end end.
+  match r with
+  | TNil => Lit 0%Q
+  | TCons _ _ _ _ x r' => match m with O => sem_operand x | S m' => tsem r' m' end
+  | TTo _ _ _ _ r' => match m with O => Lit 0%Q | S m' => tsem r' m' end
+  end.
 
 Fixpoint readable_operand (x : operand) : Prop :=
   match x with Num t | Pct t _ _ => num_readable t | Paren _ _ _ e _ => readable_expr e end
 with readable_expr (e : expr) : Prop := match e with Chain x r => readable_operand x /\ readable_tail r end
-with readable_tail (r : tail) : Prop := match r with TNil => True | TCons _ _ _ _ x r' => readable_operand x /\ readable_tail r' end.
+with readable_tail (r : tail) : Prop :=
+  match r with TNil => True | TCons _ _ _ _ x r' => readable_operand x /\ readable_tail r' | TTo _ _ _ _ _ => False end.   (* no casts: they are not numeric expressions *)
 
-Lemma canon_is_climb r : canon levels3 (Leaf 0, mkin 0 (prios r)) = climb (Leaf 0, mkin 0 (prios r)).
+Lemma canon_is_climb r : canon levels4 (Leaf 0, mkin 0 (prios r)) = climb (Leaf 0, mkin 0 (prios r)).
 Proof. symmetry. apply climb_eq_canon; [repeat constructor|apply mkin_atoms|apply prios_levels]. Qed.
 
 Lemma binop_kind_arith a : binop_kind (abinop a) (anode a).
@@ -257,6 +266,13 @@ Proof.
     + cbn [tglue tbin]. exists (anode a), [Tok (akind a) txt]. split; [|apply binop_kind_arith].
       rewrite !nodes_of_app, !nodes_of_wsT. reflexivity.
     + cbn [tglue tbin]. apply Hg. lia.
+  - intros wb txt wa u r IHr Hr. destruct Hr.
+Qed.
+
+Lemma readable_wf :
+  (forall x, readable_operand x -> wf_operand x) /\ (forall e, readable_expr e -> wf_expr e) /\ (forall r, readable_tail r -> wf_tail r).
+Proof.
+  apply syntax_mut; cbn [readable_operand readable_expr readable_tail wf_operand wf_expr wf_tail]; tauto.
 Qed.
 
 (* ---- the theorem ---- *)
@@ -272,7 +288,7 @@ Proof.
   pose proof (shape0_annotate t (sem_expr e) St q) as Hs.
   destruct (eval_exact debug facts describe (S (asize (fst (annotate q t)))) (fst (annotate q t)) (sem_expr e) [] Hs (Nat.le_succ_diag_r _)) as [Hag Hd].
   unfold ev in Hag, Hd.
-  exists (fst (eval debug facts describe (S (asize (fst (annotate q t)))) (fst (annotate q t)) [])). split; [apply parse_expression|].
+  exists (fst (eval debug facts describe (S (asize (fst (annotate q t)))) (fst (annotate q t)) [])). split; [apply parse_expression; apply (proj1 (proj2 readable_wf)); exact Hr|].
   split; [|exact Hag].
   cbn [eval_roots]. destruct (eval debug facts describe (S (asize (fst (annotate q t)))) (fst (annotate q t)) []) as [x d1] eqn:E.
   cbn [fst snd] in *. now subst d1.
